@@ -24,8 +24,12 @@ class Emitter(object):
         if ctx is None:
             ctx = {}
         def onetime_listener(*args, **ctx):
+            if onetime_listener.fired:
+                return  # an emit already in progress still holds this listener in its snapshot
+            onetime_listener.fired = True
             self.off(name, onetime_listener)
             callback(*args, **ctx)
+        onetime_listener.fired = False
         onetime_listener._ = callback
         return self.on(name, onetime_listener, ctx)
 
